@@ -30,6 +30,10 @@ var (
 	// VerifTornCuts returns increasing cut points strictly inside (0,n) for a write of n bytes to path.
 	VerifTornCuts func(path string, n int) []int
 
+	// VerifDeferRemove, when set and returning true for a path, makes Remove(path) a no-op: models an asynchronous
+	// remover (mergeset's transaction-file deleter) that is still pending when the process dies.
+	VerifDeferRemove func(path string) bool
+
 	verifMu        verifReMutex
 	verifInstalled bool
 )
@@ -155,6 +159,11 @@ func (v *verifVFS) CreateV2(name string, opt ...FSOption) (File, error) {
 	return v.create("create", name, func() (File, error) { return v.VFS.CreateV2(name, opt...) })
 }
 func (v *verifVFS) Remove(name string, opt ...FSOption) error {
+	if d := VerifDeferRemove; d != nil && d(name) {
+		// environment choice "the goroutine that removes this file has not run yet": the file stays, the caller
+		// is told nothing went wrong (it only logs the result)
+		return nil
+	}
 	return v.mutate("remove", name, "", func() error { return v.VFS.Remove(name, opt...) })
 }
 func (v *verifVFS) RemoveLocal(name string, opt ...FSOption) error {
